@@ -93,6 +93,7 @@ Qed.
 Section Norm.
   Variables (enc : bool) (f : fmt) (cfg : bconfig).
   Hypothesis Hcont : forall n c, assocS n (c_containers cfg) = Some c -> output_kind c = 0%N.
+  Hypothesis Hnl : memN 10%N (c_spaces cfg) = true.
 
   Definition k0 (c : N) : bool := (output_kind c =? 0)%N.
 
@@ -109,30 +110,23 @@ Section Norm.
   Qed.
   Lemma collapse_nonempty pres s : s <> [] -> collapse cfg pres s <> [].
   Proof. intros H. unfold collapse. destruct (_ && _); [destruct (memN 10 s); discriminate|exact H]. Qed.
-  Lemma collapse_nl pres s : exists s2, collapse cfg pres (10%N :: s) = 10%N :: s2.
-  Proof.
-    unfold collapse. destruct (_ && _); [|eexists; reflexivity].
-    unfold memN. cbn [existsb N.eqb Pos.eqb orb]. eexists; reflexivity.
-  Qed.
+  Lemma collapse_two_newlines : collapse cfg false [10%N; 10%N] = [10%N].
+  Proof. unfold collapse, all_in. cbn [negb andb forallb]. rewrite Hnl. reflexivity. Qed.
 
   (* what a list of re-parsed siblings looks like *)
   Definition nontext (x : nnode) : Prop := match x with NS c _ => k0 c = false | NT _ _ _ => True end.
-  Definition special_ok (c : N) (s : str) : Prop :=
-    k0 c = false /\ (forall x, read_special c x = Some (c, x)).
+  Definition special_ok (c : N) : Prop := k0 c = false /\ (forall x, read_special c x = Some (c, x)).
   Definition attrs_ok (a : list (str * str)) : Prop := sk a.
 
-  Inductive nfl : bool -> N -> list nnode -> Prop :=
-  | nf_nil pres cont : nfl pres cont []
-  | nf_text_last pres cont s : s <> [] -> collapse cfg pres s = s -> nfl pres cont [NS cont s]
-  | nf_text_cons pres cont s x l : s <> [] -> collapse cfg pres s = s -> nontext x -> nfl pres cont (x :: l) ->
-      nfl pres cont (NS cont s :: x :: l)
-  | nf_special pres cont c s l : special_ok c s -> (output_kind c =? 2)%N = false -> collapse cfg pres s = s ->
-      nfl pres cont l -> nfl pres cont (NS c s :: l)
-  | nf_doctype pres cont c s s2 l : special_ok c s -> collapse cfg pres s = s ->
-      nfl pres cont (NS cont (10%N :: s2) :: l) -> nfl pres cont (NS c s :: NS cont (10%N :: s2) :: l)
-  | nf_tag pres cont q a kids l : attrs_ok a ->
-      nfl (pres || memS q (c_pw cfg)) (match assocS q (c_containers cfg) with Some c => c | None => cont end) kids ->
-      nfl pres cont l -> nfl pres cont (NT q a kids :: l).
+  Inductive wnf : bool -> N -> list nnode -> Prop :=
+  | wn_nil pres cont : wnf pres cont []
+  | wn_text_last pres cont s : s <> [] -> collapse cfg pres s = s -> wnf pres cont [NS cont s]
+  | wn_text_cons pres cont s x l : s <> [] -> collapse cfg pres s = s -> nontext x -> wnf pres cont (x :: l) ->
+      wnf pres cont (NS cont s :: x :: l)
+  | wn_special pres cont c s l : special_ok c -> collapse cfg pres s = s -> wnf pres cont l -> wnf pres cont (NS c s :: l)
+  | wn_tag pres cont q a kids l : attrs_ok a ->
+      wnf (pres || memS q (c_pw cfg)) (match assocS q (c_containers cfg) with Some c => c | None => cont end) kids ->
+      wnf pres cont l -> wnf pres cont (NT q a kids :: l).
 
   Definition head_nontext (l : list nnode) : Prop := match l with [] => True | x :: _ => nontext x end.
 
@@ -152,171 +146,162 @@ Section Norm.
   Lemma qname_plain q a h ce pw : qname (mktag q None a h ce pw) = q.
   Proof. reflexivity. Qed.
 
-  (* ---- (A) re-normalising a normal list gives it back ---- *)
-  Lemma flush_text_normal pres cont s : s <> [] -> collapse cfg pres s = s -> flush_text cfg pres cont s = [NS cont s].
-  Proof. intros Hs Hc. unfold flush_text. destruct s; [contradiction|]. now rewrite Hc. Qed.
-
+  (* ---- one step of norm_kids ---- *)
   Lemma nk_text pres cont P c s r : (output_kind c =? 0)%N = true ->
     norm_kids enc f cfg pres cont P (NStr c s :: r) = norm_kids enc f cfg pres cont (P ++ s) r.
   Proof. intros H. cbn [norm_kids]. now rewrite H. Qed.
   Lemma nk_special pres cont P c s r c' s' : (output_kind c =? 0)%N = false -> read_special c s = Some (c', s') ->
     norm_kids enc f cfg pres cont P (NStr c s :: r) =
-    flush_text cfg pres cont P ++ NS c' (collapse cfg pres s') ::
-    norm_kids enc f cfg pres cont (if (output_kind c =? 2)%N && negb (starts_nl r) then [nl_] else []) r.
+    flush_text cfg pres cont P ++ NS c' (collapse cfg pres s') :: norm_kids enc f cfg pres cont (trailing c) r.
   Proof. intros H1 H2. cbn [norm_kids]. now rewrite H1, H2. Qed.
   Lemma nk_none pres cont P c s r : (output_kind c =? 0)%N = false -> read_special c s = None ->
-    norm_kids enc f cfg pres cont P (NStr c s :: r) = norm_kids enc f cfg pres cont P r.
+    norm_kids enc f cfg pres cont P (NStr c s :: r) = norm_kids enc f cfg pres cont (P ++ trailing c) r.
   Proof. intros H1 H2. cbn [norm_kids]. now rewrite H1, H2. Qed.
   Lemma nk_tag pres cont P p ks r :
     norm_kids enc f cfg pres cont P (NTag p ks :: r) =
     flush_text cfg pres cont P ++ norm_node enc f cfg pres cont (NTag p ks) ++ norm_kids enc f cfg pres cont [] r.
   Proof. reflexivity. Qed.
 
-  Lemma renorm : forall pres cont l, nfl pres cont l -> k0 cont = true ->
+  Lemma stable_node_tag pres cont q a kids :
+    stable_node cfg pres cont (NT q a kids) =
+    stable_list cfg (pres || memS q (c_pw cfg)) (match assocS q (c_containers cfg) with Some c => c | None => cont end) kids.
+  Proof. cbn [stable_node]. induction kids as [|k r IH]; [reflexivity|]. cbn [stable_list]. now rewrite IH. Qed.
+
+  Lemma doctype_next_inv cont r :
+    match r with NS c2 [10%N] :: _ => (c2 =? cont)%N | _ => false end = true -> exists l2, r = NS cont [10%N] :: l2.
+  Proof.
+    intros H. destruct r as [|[q0 a0 k0'|c2 s] l2]; try discriminate H. destruct s as [|x [|y s]]; try discriminate H.
+    2:{ destruct x as [|[[[[]|[]|]|[[]|[]|]|]|[[[]|[]|]|[[]|[]|]|]|]]; discriminate H. }
+    destruct x as [|[[[[]|[]|]|[[]|[]|]|]|[[[]|[]|]|[[]|[]|]|]|]]; try discriminate H.
+    revert H.
+    intros H. apply N.eqb_eq in H. subst c2. now exists l2.
+  Qed.
+
+  (* ---- (A) re-normalising a stable normal list gives it back ---- *)
+  Lemma flush_text_normal pres cont s : s <> [] -> flush_text cfg pres cont s = [NS cont (collapse cfg pres s)].
+  Proof. intros Hs. unfold flush_text. destruct s; [contradiction|reflexivity]. Qed.
+
+  Lemma renorm : forall pres cont l, wnf pres cont l -> stable_list cfg pres cont l = true -> k0 cont = true ->
     (head_nontext l -> forall P, norm_kids enc f cfg pres cont P (map (inj cfg) l) = flush_text cfg pres cont P ++ l) /\
+    (forall s r, l = NS cont s :: r -> forall P,
+        norm_kids enc f cfg pres cont P (map (inj cfg) l) = NS cont (collapse cfg pres (P ++ s)) :: r) /\
     norm_kids enc f cfg pres cont [] (map (inj cfg) l) = l.
   Proof.
-    induction 1 as [pres cont|pres cont s Hs Hc|pres cont s x l Hs Hc Hx Hl IH|pres cont c s l [Hk Hr] Hk2 Hc Hl IH
-                    |pres cont c s s2 l [Hk Hr] Hc Hl IH|pres cont q a kids l Ha Hkids IHk Hl IH]; intros Hcont0.
-    - split; [intros _ P; cbn; now rewrite app_nil_r|reflexivity].
-    - split; [intros H; cbn in H; unfold k0 in *; congruence|].
-      cbn [map inj]. unfold k0 in Hcont0. rewrite nk_text by exact Hcont0. cbn [app norm_kids]. now apply flush_text_normal.
-    - destruct (IH Hcont0) as [IH1 _]. split; [intros H; cbn in H; unfold k0 in *; congruence|].
-      change (map (inj cfg) (NS cont s :: x :: l)) with (NStr cont s :: map (inj cfg) (x :: l)).
-      unfold k0 in Hcont0. rewrite nk_text by exact Hcont0. cbn [app]. rewrite (IH1 Hx).
-      now rewrite flush_text_normal.
-    - destruct (IH Hcont0) as [_ IH2]. unfold k0 in Hk.
+    induction 1 as [pres cont|pres cont s Hs Hc|pres cont s x l Hs Hc Hx Hl IH|pres cont c s l [Hk Hr] Hc Hl IH
+                    |pres cont q a kids l Ha Hkids IHk Hl IH]; intros Hst Hcont0.
+    - split; [intros _ P; cbn; now rewrite app_nil_r|]. split; [intros s r H; discriminate H|reflexivity].
+    - assert (G2 : forall P, norm_kids enc f cfg pres cont P (map (inj cfg) [NS cont s]) = [NS cont (collapse cfg pres (P ++ s))]).
+      { intros P. cbn [map inj]. unfold k0 in Hcont0. rewrite nk_text by exact Hcont0. cbn [norm_kids].
+        apply flush_text_normal. intros E. apply app_eq_nil in E as [_ E]. contradiction. }
+      split; [intros H; cbn in H; unfold k0 in *; congruence|]. split.
+      + intros s0 r [= <- <-] P. apply G2.
+      + rewrite G2. cbn [app]. now rewrite Hc.
+    - cbn [stable_list] in Hst. apply andb_prop in Hst as [_ Hst].
+      destruct (IH Hst Hcont0) as [IH1 _].
+      assert (G2 : forall P, norm_kids enc f cfg pres cont P (map (inj cfg) (NS cont s :: x :: l)) =
+                             NS cont (collapse cfg pres (P ++ s)) :: x :: l).
+      { intros P. change (map (inj cfg) (NS cont s :: x :: l)) with (NStr cont s :: map (inj cfg) (x :: l)).
+        unfold k0 in Hcont0. rewrite nk_text by exact Hcont0. rewrite (IH1 Hx).
+        rewrite flush_text_normal; [reflexivity|]. intros E. apply app_eq_nil in E as [_ E]. contradiction. }
+      split; [intros H; cbn in H; unfold k0 in *; congruence|]. split.
+      + intros s0 r [= <- <-] P. apply G2.
+      + rewrite G2. cbn [app]. now rewrite Hc.
+    - cbn [stable_list] in Hst. apply andb_prop in Hst as [Hst Hst2]. apply andb_prop in Hst as [Hd _].
+      destruct (IH Hst2 Hcont0) as (IH1 & IH2 & IH0). unfold k0 in Hk.
+      assert (Etail : norm_kids enc f cfg pres cont (trailing c) (map (inj cfg) l) = l).
+      { cbn [doctype_ok] in Hd. destruct (trailing_cases c) as [E|E]; rewrite E in Hd |- *; [exact IH0|].
+        apply andb_prop in Hd as [Hp Hd]. apply negb_true_iff in Hp. subst pres.
+        destruct (doctype_next_inv cont l Hd) as [l2 ->].
+        rewrite (IH2 [10%N] l2 eq_refl [nl_]). cbn [app]. unfold nl_. now rewrite collapse_two_newlines. }
       assert (E : forall P, norm_kids enc f cfg pres cont P (map (inj cfg) (NS c s :: l)) = flush_text cfg pres cont P ++ NS c s :: l).
       { intros P. change (map (inj cfg) (NS c s :: l)) with (NStr c s :: map (inj cfg) l).
-        rewrite (nk_special pres cont P c s _ c s Hk (Hr s)), Hk2, Hc. cbn [andb]. now rewrite IH2. }
-      split; [intros _; exact E|]. now rewrite E.
-    - destruct (IH Hcont0) as [_ IH2]. unfold k0 in Hk.
-      assert (E : forall P, norm_kids enc f cfg pres cont P (map (inj cfg) (NS c s :: NS cont (10%N :: s2) :: l)) =
-                            flush_text cfg pres cont P ++ NS c s :: NS cont (10%N :: s2) :: l).
-      { intros P. change (map (inj cfg) (NS c s :: NS cont (10%N :: s2) :: l)) with (NStr c s :: map (inj cfg) (NS cont (10%N :: s2) :: l)).
-        rewrite (nk_special pres cont P c s _ c s Hk (Hr s)), Hc.
-        assert (Es : starts_nl (map (inj cfg) (NS cont (10%N :: s2) :: l)) = true).
-        { cbn [map inj starts_nl]. unfold preformatted. unfold k0 in Hcont0. now rewrite Hcont0. }
-        rewrite Es. cbn [negb]. rewrite andb_false_r. now rewrite IH2. }
-      split; [intros _; exact E|]. now rewrite E.
-    - destruct (IH Hcont0) as [_ IH2].
+        rewrite (nk_special pres cont P c s _ c s Hk (Hr s)), Hc, Etail. reflexivity. }
+      split; [intros _; exact E|]. split; [|now rewrite E].
+      intros s0 r [= -> _ _]. unfold k0 in Hcont0. congruence.
+    - cbn [stable_list] in Hst. apply andb_prop in Hst as [Hst Hst2]. apply andb_prop in Hst as [_ Hsn].
+      rewrite stable_node_tag in Hsn.
+      destruct (IH Hst2 Hcont0) as (_ & _ & IH0).
       assert (Hc' : k0 (match assocS q (c_containers cfg) with Some c => c | None => cont end) = true).
       { destruct (assocS q (c_containers cfg)) as [c|] eqn:Ea; [|exact Hcont0]. unfold k0. now rewrite (Hcont _ _ Ea). }
-      destruct (IHk Hc') as [_ IHk2].
+      destruct (IHk Hsn Hc') as (_ & _ & IHk0).
       assert (E : forall P, norm_kids enc f cfg pres cont P (map (inj cfg) (NT q a kids :: l)) =
                             flush_text cfg pres cont P ++ NT q a kids :: l).
       { intros P. cbn [map inj]. rewrite nk_tag, (norm_node_tag enc f cfg). cbn zeta.
-        rewrite qname_plain, norm_attrs_inj by assumption. rewrite IHk2, IH2. reflexivity. }
-      split; [intros _; exact E|]. now rewrite E.
+        rewrite qname_plain, norm_attrs_inj by assumption. rewrite IHk0, IH0. reflexivity. }
+      split; [intros _; exact E|]. split; [intros s0 r H; discriminate H|now rewrite E].
   Qed.
 
   (* ---- (B) what [norm] produces is a normal list ---- *)
-  Lemma nfl_flush pres cont pend : nfl pres cont (flush_text cfg pres cont pend).
+  Lemma wnf_flush pres cont pend : wnf pres cont (flush_text cfg pres cont pend).
   Proof.
     unfold flush_text. destruct pend as [|c0 pend]; [constructor|].
-    apply nf_text_last; [apply collapse_nonempty; discriminate|apply collapse_idem].
+    apply wn_text_last; [apply collapse_nonempty; discriminate|apply collapse_idem].
   Qed.
-  Lemma nfl_flush_cons pres cont pend x l : nontext x -> nfl pres cont (x :: l) ->
-    nfl pres cont (flush_text cfg pres cont pend ++ x :: l).
+  Lemma wnf_flush_cons pres cont pend x l : nontext x -> wnf pres cont (x :: l) ->
+    wnf pres cont (flush_text cfg pres cont pend ++ x :: l).
   Proof.
     intros Hx Hl. unfold flush_text. destruct pend as [|c0 pend]; [exact Hl|]. cbn [app].
-    apply nf_text_cons; [apply collapse_nonempty; discriminate|apply collapse_idem|exact Hx|exact Hl].
+    apply wn_text_cons; [apply collapse_nonempty; discriminate|apply collapse_idem|exact Hx|exact Hl].
   Qed.
-  Lemma flush_starts pres cont s0 : exists s2, flush_text cfg pres cont (10%N :: s0) = [NS cont (10%N :: s2)].
-  Proof. unfold flush_text. destruct (collapse_nl pres s0) as [s2 E]. rewrite E. now exists s2. Qed.
-
-  Definition starts10 (cont : N) (out : list nnode) : Prop := exists s2 rest, out = NS cont (10%N :: s2) :: rest.
 
   (* the classes a markup declaration can come back with *)
-  Lemma read_special_cases c s c' s' : read_special c s = Some (c', s') ->
-    k0 c' = false /\ (forall x, read_special c' x = Some (c', x)) /\
-    ((output_kind c =? 2)%N = true /\ c' = 6%N \/ (output_kind c =? 2)%N = false /\ (output_kind c' =? 2)%N = false).
+  Lemma read_special_cases c s c' s' : read_special c s = Some (c', s') -> special_ok c'.
   Proof.
     destruct c as [|[[[]|[]|]|[[]|[]|]|]]; cbn [read_special]; intros [= <- <-] || intros H; try discriminate H;
-      (split; [reflexivity|split; [intros x; reflexivity|]]); (left; split; reflexivity) || (right; split; reflexivity).
+      (split; [reflexivity|intros x; reflexivity]).
   Qed.
 
   Definition R (t : node) : Prop :=
     match t with
     | NStr _ _ => True
-    | NTag p ks => forall pres cont, k0 cont = true ->
-        nfl pres cont (norm_kids enc f cfg pres cont [] ks)
+    | NTag p ks => forall pres cont, k0 cont = true -> wnf pres cont (norm_kids enc f cfg pres cont [] ks)
     end.
 
-  Lemma starts_nl_inv ks : starts_nl ks = true ->
-    exists c s3 r, ks = NStr c (10%N :: s3) :: r /\ (output_kind c =? 0)%N = true.
-  Proof.
-    destruct ks as [|[p k|c [|[|x] s]] r]; cbn [starts_nl]; try discriminate.
-    destruct x as [x|x|]; try discriminate. destruct x as [x|x|]; try discriminate. destruct x as [x|x|]; try discriminate.
-    destruct x as [x|x|]; try discriminate.
-    unfold preformatted. intros H. apply negb_true_iff, negb_false_iff in H. exists c, s, r. split; [reflexivity|exact H].
-  Qed.
-
-  Lemma nfl_norm_kids : forall ks, Forall R ks -> forall pres cont, k0 cont = true -> forall pend,
-    nfl pres cont (norm_kids enc f cfg pres cont pend ks) /\
-    (forall s0, pend = 10%N :: s0 -> starts10 cont (norm_kids enc f cfg pres cont pend ks)) /\
-    (pend = [] -> starts_nl ks = true -> starts10 cont (norm_kids enc f cfg pres cont pend ks)).
+  Lemma wnf_norm_kids : forall ks, Forall R ks -> forall pres cont, k0 cont = true -> forall pend,
+    wnf pres cont (norm_kids enc f cfg pres cont pend ks).
   Proof.
     induction ks as [|k r IH]; intros HR pres cont Hcont0 pend.
-    - cbn [norm_kids]. split; [apply nfl_flush|]. split; [|discriminate].
-      intros s0 ->. destruct (flush_starts pres cont s0) as [s2 E]. rewrite E. now exists s2, [].
+    - cbn [norm_kids]. apply wnf_flush.
     - inversion HR as [|? ? Hk HR']; subst. specialize (IH HR' pres cont Hcont0).
       destruct k as [p ks'|c s].
       + rewrite nk_tag, (norm_node_tag enc f cfg). cbn zeta. cbn [app].
         assert (Hc' : k0 (match assocS (qname p) (c_containers cfg) with Some c => c | None => cont end) = true).
         { destruct (assocS (qname p) (c_containers cfg)) as [c|] eqn:Ea; [|exact Hcont0]. unfold k0. now rewrite (Hcont _ _ Ea). }
-        destruct (IH []) as [I1 _]. split; [|split].
-        * apply nfl_flush_cons; [exact I|]. apply nf_tag; [apply norm_attrs_sorted|now apply Hk|exact I1].
-        * intros s0 ->. destruct (flush_starts pres cont s0) as [s2 E]. rewrite E. cbn [app]. eexists _, _. reflexivity.
-        * intros _ H. discriminate H.
+        apply wnf_flush_cons; [exact I|]. apply wn_tag; [apply norm_attrs_sorted|now apply Hk|apply IH].
       + destruct (output_kind c =? 0)%N eqn:Ek.
-        * rewrite nk_text by exact Ek. destruct (IH (pend ++ s)) as (I1 & I2 & _). split; [exact I1|]. split.
-          -- intros s0 ->. apply (I2 (s0 ++ s)). reflexivity.
-          -- intros -> H. apply starts_nl_inv in H as (c2 & s3 & r2 & [= -> -> ->] & _). apply (I2 s3). reflexivity.
-        * assert (Hns : starts_nl (NStr c s :: r) = false).
-          { destruct s as [|x s]; [reflexivity|]. cbn [starts_nl]. unfold preformatted. rewrite Ek.
-            destruct x as [|[[[[]|[]|]|[[]|[]|]|]|[[[]|[]|]|[[]|[]|]|]|]]; reflexivity. }
-          destruct (read_special c s) as [[c' s']|] eqn:Er.
+        * rewrite nk_text by exact Ek. apply IH.
+        * destruct (read_special c s) as [[c' s']|] eqn:Er.
           -- rewrite (nk_special pres cont pend c s r c' s' Ek Er).
-             destruct (read_special_cases c s c' s' Er) as (Hk0 & Hfix & Hkind).
-             set (pend' := if (output_kind c =? 2)%N && negb (starts_nl r) then [nl_] else []).
-             destruct (IH pend') as (I1 & I2 & I3).
-             assert (Hn : nfl pres cont (NS c' (collapse cfg pres s') :: norm_kids enc f cfg pres cont pend' r)).
-             { destruct Hkind as [[H2 ->]|[H2 H2']].
-               - assert (S10 : starts10 cont (norm_kids enc f cfg pres cont pend' r)).
-                 { destruct (starts_nl r) eqn:Es.
-                   - apply I3; [unfold pend'; rewrite H2; reflexivity|reflexivity].
-                   - apply (I2 []). unfold pend'. rewrite H2. reflexivity. }
-                 destruct S10 as (s2 & rest & E). rewrite E in I1 |- *.
-                 apply nf_doctype; [split; [exact Hk0|exact Hfix]|apply collapse_idem|exact I1].
-               - apply nf_special; [split; [exact Hk0|exact Hfix]|exact H2'|apply collapse_idem|exact I1]. }
-             split; [apply nfl_flush_cons; [exact Hk0|exact Hn]|]. split.
-             ++ intros s0 ->. destruct (flush_starts pres cont s0) as [s2 E]. rewrite E. cbn [app]. eexists _, _. reflexivity.
-             ++ intros _ H. rewrite Hns in H. discriminate H.
-          -- rewrite (nk_none pres cont pend c s r Ek Er). destruct (IH pend) as (I1 & I2 & _). split; [exact I1|]. split; [exact I2|].
-             intros _ H. rewrite Hns in H. discriminate H.
+             pose proof (read_special_cases c s c' s' Er) as Hok.
+             apply wnf_flush_cons; [exact (proj1 Hok)|]. apply wn_special; [exact Hok|apply collapse_idem|apply IH].
+          -- rewrite (nk_none pres cont pend c s r Ek Er). apply IH.
   Qed.
 
   Lemma R_all : forall t, R t.
   Proof.
     induction t as [c s|p ks IH] using node_ind'; [exact I|].
-    intros pres cont Hc. now apply (nfl_norm_kids ks IH pres cont Hc []).
+    intros pres cont Hc. now apply (wnf_norm_kids ks IH pres cont Hc []).
   Qed.
 
   Lemma k0_zero : k0 0%N = true.
   Proof. reflexivity. Qed.
 
-  (* ---- a second round trip changes nothing ---- *)
-  Theorem norm_second_roundtrip t : norm enc f cfg (doc cfg (norm enc f cfg t)) = norm enc f cfg t.
+  Lemma wnf_norm t : wnf false 0%N (norm enc f cfg t).
   Proof.
-    assert (Hn : nfl false 0%N (norm enc f cfg t)).
-    { unfold norm. destruct t as [p ks|c s]; [|constructor]. destruct (g_hidden p).
-      - apply (nfl_norm_kids ks (proj2 (Forall_forall R ks) (fun t _ => R_all t)) false 0%N k0_zero []).
-      - rewrite (norm_node_tag enc f cfg). cbn zeta. apply nf_tag; [apply norm_attrs_sorted| |constructor].
-        apply (R_all (NTag p ks)).
-        destruct (assocS (qname p) (c_containers cfg)) as [c|] eqn:Ea; [|exact k0_zero]. unfold k0. now rewrite (Hcont _ _ Ea). }
-    unfold doc. unfold norm at 1. cbn [g_hidden].
-    apply (renorm false 0%N _ Hn k0_zero).
+    unfold norm. destruct t as [p ks|c s]; [|constructor]. destruct (g_hidden p).
+    - apply (wnf_norm_kids ks (proj2 (Forall_forall R ks) (fun t _ => R_all t)) false 0%N k0_zero []).
+    - rewrite (norm_node_tag enc f cfg). cbn zeta. apply wn_tag; [apply norm_attrs_sorted| |constructor].
+      apply (R_all (NTag p ks)).
+      destruct (assocS (qname p) (c_containers cfg)) as [c|] eqn:Ea; [|exact k0_zero]. unfold k0. now rewrite (Hcont _ _ Ea).
+  Qed.
+
+  (* ---- a second round trip changes nothing, where no doctype is followed by text other than its newline ---- *)
+  Theorem norm_second_roundtrip_partial t :
+    stable_doctypes cfg (norm enc f cfg t) = true ->
+    norm enc f cfg (doc cfg (norm enc f cfg t)) = norm enc f cfg t.
+  Proof.
+    intros Hst. unfold doc. unfold norm at 1. cbn [g_hidden].
+    apply (renorm false 0%N _ (wnf_norm t) Hst k0_zero).
   Qed.
 End Norm.
 
@@ -329,10 +314,11 @@ Qed.
 Lemma html_containers_text_classes :
   forallb (fun kv => (output_kind (snd kv) =? 0)%N) default_string_containers = true.
 Proof. reflexivity. Qed.
-(* with the HTML builder's tables: nothing assumed *)
-Theorem norm_second_roundtrip_html enc f t :
+(* with the HTML builder's tables *)
+Theorem norm_second_roundtrip_partial_html enc f t :
+  stable_doctypes html_bcfg (norm enc f html_bcfg t) = true ->
   norm enc f html_bcfg (doc html_bcfg (norm enc f html_bcfg t)) = norm enc f html_bcfg t.
 Proof.
-  apply norm_second_roundtrip. intros n c H. apply N.eqb_eq.
+  apply norm_second_roundtrip_partial; [|reflexivity]. intros n c H. apply N.eqb_eq.
   exact (assocS_forallb (fun c => (output_kind c =? 0)%N) default_string_containers n c html_containers_text_classes H).
 Qed.
